@@ -42,7 +42,7 @@ m = {
         "source_commits": json.load(open(os.path.join(V, "hook_commits.json"))),
         "add_only": True,
     },
-    "engines": [{"name": e, "path": f"harness/src/eng_{e}.rs + lean/E57/Drv", "serves_properties": sorted(ps),
+    "engines": [{"name": e, "path": f"harness/src/eng_{'copy' if e == 'tools' else e}.rs + lean/E57/Drv", "serves_properties": sorted(ps),
                  "kind_free_text": "generator + real-code executor + direct oracle (Rust) / model executor (Lean, compiled)"} for e, ps in sorted(engines.items())],
     "checks": checks,
     "notes": "Every check: (1) lake build of the property's theorem module + axiom audit, (2) correspondence of the Lean model with the crate built from /repo's working tree, (3) implementation-only oracle of the property. See DESIGN.md.",
